@@ -996,6 +996,11 @@ _ALL_WITNESSES = [
     {'key': 'C04:vle(TS)',
      'case': {'kind': 'vle', 'mode': 'real', 'phases': 'lg', 'l': [12.5, 4.0, 8.0, 0., 0., 0., 0.], 'g': [0.25, 3.0, 0., 0., 0., 0., 0.], 's': [0.] * 7,
               'spec': {'T': 350.5, 'S': ['frac', 0.5]}, 'sk': 'TS', 'T0': 298.15, 'P0': 101325., 'co': None, 'draws': []}},
+    # the same mechanism on the T,H path (found by the thorough-tier search with VERIF_SEED=1): Water 10 / Ethanol 5 / Methanol 3 with a dissolved
+    # solute, vle(T=360, H 3/8 of the way from the all-liquid to the all-vapour value): the returned state misses H by 0.04 %
+    {'key': 'C04:vle(TH)',
+     'case': {'kind': 'vle', 'mode': 'real', 'phases': 'lg', 'l': [10.0, 5.0, 3.0, 0.0, 0.0, 0.0, 1.125], 'g': [0.] * 7, 's': [0.] * 7,
+              'spec': {'T': 360.0, 'H': ['frac', 0.375]}, 'sk': 'TH', 'T0': 298.15, 'P0': 101325., 'co': None, 'draws': []}},
     # T,H / T,S with a non-condensable gas and a target next to the all-liquid value: the root lies above 2 x P_bubble(rest), the end of the bracket
     {'key': 'C04:vle(TH)-root-above-2Pbubble',
      'case': {'kind': 'vle', 'mode': 'real', 'phases': 'lg', 'l': [0., 8., 8., 0., 0., 0., 0.], 'g': [0., 0., 0., 1., 0., 0., 0.], 's': [0.] * 7,
